@@ -62,7 +62,7 @@ RECIPES = {
         level="model_checking",
         monitors={"C14"},
         mc=[MC_QM],
-        runs=[dict(cmd="run", gen="small:40,positions:20,gc-heavy:8,restarts:20,batch:8",
+        runs=[dict(cmd="run", gen="small:40,positions:20,gc-heavy:8,restarts:20,batch:8,aim-roll:24,aim-gc:16",
                    policy="always_flush,do_nothing,always_fsync,on_delay_0_flush,on_delay_0_fsync,on_delay_long_flush,on_delay_long_fsync",
                    opts={"c14": True})],
         rule="same script under 7 policies: results (positions, eviction counts, error kinds) and states of every call "
